@@ -77,3 +77,219 @@ Proof.
   unfold hd_set, str_header_value. rewrite N. cbn [fst snd]. split; [|reflexivity].
   apply hd_get_after_set. apply ci_eqb_refl.
 Qed.
+
+(* ================================================================== parameter schemes: the forced-quote dict round trip *)
+(* an item key=value whose value is quoted with allow_token chosen per key (Digest: realm, domain, nonce, opaque, qop
+   are always quoted) *)
+Definition qitem (q : str -> bool) (kv : str * str) : str := fst kv ++ [EQ] ++ quote_header_value (q (fst kv)) (snd kv).
+Definition raw_q (b : bool) (v : str) : str := if b then raw v else DQ :: v ++ [DQ].
+Definition raw_qitem (q : str -> bool) (kv : str * str) : str := fst kv ++ [EQ] ++ raw_q (q (fst kv)) (snd kv).
+Definition pdom (d : list (str * str)) : Prop := NoDup (map fst d) /\ Forall (fun kv => key_ok (fst kv) = true) d.
+
+Lemma phl_item_q b v r res part :
+  phl_go (quote_header_value b v ++ r) res part false false = phl_go r res (part ++ raw_q b v) false false.
+Proof.
+  destruct b; [apply phl_item|]. unfold raw_q, quote_header_value. cbn [andb]. destruct v as [|c v].
+  - change ([DQ; DQ] ++ r) with (DQ :: escape_q [] ++ DQ :: r). rewrite phl_quoted. reflexivity.
+  - change ((DQ :: escape_q (c :: v) ++ [DQ]) ++ r) with (DQ :: (escape_q (c :: v) ++ [DQ]) ++ r).
+    rewrite <- app_assoc. cbn [app]. apply phl_quoted.
+Qed.
+
+Lemma raw_q_ends b v : exists a z m, (raw_q b v = a :: m ++ [z] \/ (raw_q b v = [a] /\ z = a)) /\ uni_ws a = false /\ uni_ws z = false.
+Proof.
+  destruct b; [apply raw_ends|]. exists DQ, DQ, v. split; [left; reflexivity|split; reflexivity].
+Qed.
+
+Lemma strip_outer_quotes_raw_q b v : strip_outer_quotes (raw_q b v) = v.
+Proof.
+  destruct b; [apply strip_outer_quotes_raw|]. unfold raw_q, strip_outer_quotes. rewrite N.eqb_refl.
+  rewrite rev_app_distr. cbn [rev app]. rewrite N.eqb_refl. apply rev_involutive.
+Qed.
+
+Lemma phl_qitem q kv r res part :
+  key_ok (fst kv) = true ->
+  phl_go (qitem q kv ++ r) res part false false = phl_go r res (part ++ raw_qitem q kv) false false.
+Proof.
+  destruct kv as [k v]. unfold key_ok, qitem, raw_qitem. cbn [fst snd]. intro H.
+  apply andb_prop in H. destruct H as [H _]. apply andb_prop in H. destruct H as [_ Ht].
+  rewrite <- !app_assoc. rewrite (phl_plain k) by (apply token_plain; exact Ht).
+  cbn [app phl_go]. change (EQ =? COMMA) with false. change (EQ =? DQ) with false. cbv iota.
+  rewrite phl_item_q. rewrite <- !app_assoc. reflexivity.
+Qed.
+
+Lemma raw_qitem_nonempty q kv : key_ok (fst kv) = true -> raw_qitem q kv <> [].
+Proof.
+  intro H. destruct (key_first _ H) as (c & r & E & _). unfold raw_qitem. rewrite E. discriminate.
+Qed.
+
+Fixpoint expect_q (q : str -> bool) (part : str) (l : list (str * str)) : list str :=
+  match l with
+  | [] => []
+  | [kv] => [part ++ raw_qitem q kv]
+  | kv :: l' => (part ++ raw_qitem q kv) :: expect_q q [SP] l'
+  end.
+
+Lemma phl_join_q q : forall l res part, l <> [] -> Forall (fun kv => key_ok (fst kv) = true) l ->
+  phl_go (join COMMA_SP (map (qitem q) l)) res part false false = res ++ expect_q q part l.
+Proof.
+  induction l as [|kv l IH]; intros res part Hne HF; [contradiction|]. inversion HF as [|? ? Hk Hl]; subst.
+  destruct l as [|w l].
+  - cbn [map join expect_q]. rewrite <- (app_nil_r (qitem q kv)), phl_qitem by exact Hk. cbn [phl_go].
+    destruct (part ++ raw_qitem q kv) eqn:E; [|reflexivity].
+    apply app_eq_nil in E. destruct E as [_ E]. exfalso. apply (raw_qitem_nonempty q kv Hk). exact E.
+  - change (join COMMA_SP (map (qitem q) (kv :: w :: l))) with (qitem q kv ++ COMMA_SP ++ join COMMA_SP (map (qitem q) (w :: l))).
+    rewrite phl_qitem by exact Hk. unfold COMMA_SP at 1. cbn [app phl_go]. change (44 =? COMMA) with true. cbv iota.
+    change (32 =? COMMA) with false. change (32 =? DQ) with false. cbv iota. cbn [app].
+    rewrite IH by (try discriminate; exact Hl). rewrite <- app_assoc. reflexivity.
+Qed.
+
+Lemma raw_qitem_shape q kv : key_ok (fst kv) = true ->
+  exists c z m, raw_qitem q kv = c :: m ++ [z] /\ is_token_char c = true /\ uni_ws z = false /\ (z =? EQ) = false.
+Proof.
+  intro Hk. destruct (key_first _ Hk) as (c & r & Ek & Hc & Hr). destruct kv as [k v]. cbn [fst snd] in *. subst k.
+  unfold raw_qitem. cbn [fst snd]. destruct (raw_q_ends (q (c :: r)) v) as (a & z & m & E & _ & Wz).
+  assert (Zq : (z =? EQ) = false).
+  { unfold raw_q in E. destruct (q (c :: r)).
+    - unfold raw in E. destruct v as [|x v'].
+      + destruct E as [E|[E _]]; [|discriminate]. destruct m as [|? [|? ?]]; inversion E; subst; reflexivity.
+      + destruct (forallb is_token_char (x :: v')) eqn:T.
+        * assert (Hz : In z (x :: v')).
+          { destruct E as [E|[E Ez]]; [rewrite E; right; apply in_or_app; right; left; reflexivity|rewrite E; subst; left; reflexivity]. }
+          rewrite forallb_forall in T. destruct (token_char_facts z (T z Hz)) as (_ & _ & Q & _). exact Q.
+        * destruct E as [E|[E _]]; [|discriminate]. injection E as Ea Em.
+          change ((x :: v') ++ [DQ] = m ++ [z]) in Em.
+          assert (z = DQ) by (apply app_inj_tail in Em; symmetry; apply Em). subst z. reflexivity.
+    - destruct E as [E|[E _]]; [|destruct v; discriminate]. injection E as Ea Em.
+      assert (z = DQ) by (apply app_inj_tail in Em; symmetry; apply Em). subst z. reflexivity. }
+  exists c, z. destruct E as [E|[E Ez]].
+  - exists (r ++ [EQ] ++ a :: m). rewrite E. cbn [app]. split; [f_equal; rewrite <- !app_assoc; reflexivity|]. repeat split; assumption.
+  - exists (r ++ [EQ]). rewrite E. subst z. cbn [app]. split; [f_equal; rewrite <- !app_assoc; reflexivity|]. repeat split; assumption.
+Qed.
+
+Lemma strip_raw_qitem q kv : key_ok (fst kv) = true ->
+  strip uni_ws (raw_qitem q kv) = raw_qitem q kv /\ strip uni_ws (SP :: raw_qitem q kv) = raw_qitem q kv /\
+  strip_outer_quotes (raw_qitem q kv) = raw_qitem q kv.
+Proof.
+  intro Hk. destruct (raw_qitem_shape q kv Hk) as (c & z & m & E & Hc & Wz & _).
+  destruct (token_char_facts c Hc) as (_ & B & _ & Wc & _).
+  destruct (strip_keep (raw_qitem q kv) c z m (or_introl E) Wc Wz) as [S1 S2].
+  split; [exact S1|]. split; [exact S2|]. rewrite E. unfold strip_outer_quotes. rewrite B. reflexivity.
+Qed.
+
+Lemma map_strip_expect_q q l : forall part, (part = [] \/ part = [SP]) ->
+  Forall (fun kv => key_ok (fst kv) = true) l ->
+  map strip_outer_quotes (map (strip uni_ws) (expect_q q part l)) = map (raw_qitem q) l.
+Proof.
+  induction l as [|kv l IH]; intros part Hp HF; [reflexivity|]. inversion HF as [|? ? Hk Hl]; subst.
+  destruct (strip_raw_qitem q kv Hk) as (S1 & S2 & S3).
+  assert (Hs : strip uni_ws (part ++ raw_qitem q kv) = raw_qitem q kv) by (destruct Hp; subst part; cbn [app]; assumption).
+  destruct l as [|w l].
+  - cbn [expect_q map]. rewrite Hs, S3. reflexivity.
+  - change (expect_q q part (kv :: w :: l)) with ((part ++ raw_qitem q kv) :: expect_q q [SP] (w :: l)).
+    cbn [map]. rewrite Hs, S3. f_equal. apply (IH [SP]); [right; reflexivity|exact Hl].
+Qed.
+
+Lemma pd_go_qitems q l : forall acc,
+  Forall (fun kv => key_ok (fst kv) = true) l -> NoDup (map fst (acc ++ map (fun kv => (fst kv, Some (snd kv))) l)) ->
+  pd_go (map (raw_qitem q) l) acc = Some (acc ++ map (fun kv => (fst kv, Some (snd kv))) l).
+Proof.
+  induction l as [|[k v] l IH]; intros acc HF HN; cbn [map pd_go]; [rewrite app_nil_r; reflexivity|].
+  inversion HF as [|? ? Hk Hl]; subst. cbn [fst snd] in *.
+  pose proof Hk as Hk2. unfold key_ok in Hk2. apply andb_prop in Hk2. destruct Hk2 as [Hk2 Hstar].
+  apply andb_prop in Hk2. destruct Hk2 as [Hne Htok]. apply negb_true_iff in Hstar.
+  assert (Hfresh : ~ In k (map fst acc)).
+  { rewrite map_app in HN. cbn [map fst] in HN. apply NoDup_remove_2 in HN. intro A. apply HN. apply in_or_app. left. exact A. }
+  unfold raw_qitem at 1. cbn [fst snd app]. rewrite (partition1_token k (raw_q (q k) v) Htok), (strip_token k Htok).
+  destruct k as [|c k']; [discriminate|]. rewrite Hstar.
+  destruct (raw_q_ends (q (c :: k')) v) as (a & z & m & E & Wa & Wz).
+  rewrite (proj1 (strip_keep _ a z m E Wa Wz)), strip_outer_quotes_raw_q, ad_set_fresh by exact Hfresh.
+  match goal with |- pd_go _ ?a = _ => rewrite (IH a Hl) by (rewrite <- app_assoc; exact HN) end.
+  rewrite <- app_assoc. reflexivity.
+Qed.
+
+Theorem qdict_roundtrip q d : pdom d -> d <> [] ->
+  parse_dict_header (join COMMA_SP (map (qitem q) d)) = Some (map (fun kv => (fst kv, Some (snd kv))) d).
+Proof.
+  intros [HN HF] Hne. unfold parse_dict_header, parse_list_header, parse_http_list.
+  rewrite phl_join_q by assumption. cbn [app]. rewrite (map_strip_expect_q q d []) by (try (left; reflexivity); exact HF).
+  apply (pd_go_qitems q d []); [exact HF|]. cbn [app]. rewrite map_map. cbn [fst]. exact HN.
+Qed.
+
+(* ------------------------------------------------------------------ parameter schemes re-read equal *)
+Definition wa_q (ty : str) : str -> bool :=
+  if list_eqb ty DIGEST then (fun k => negb (smem k wa_digest_quoted)) else (fun _ => true).
+Definition some_params (d : list (str * str)) : cdict := map (fun kv => (fst kv, Some (snd kv))) d.
+
+Lemma quote_shape b v : exists z m, quote_header_value b v = m ++ [z] /\ uni_ws z = false /\ (z =? EQ) = false.
+Proof.
+  unfold quote_header_value. destruct v as [|c v]; [exists DQ, [DQ]; repeat split|].
+  destruct (b && forallb is_token_char (c :: v)) eqn:E.
+  - apply andb_prop in E. destruct E as [_ T]. destruct (exists_last (l := c :: v) ltac:(discriminate)) as [m [z Ez]].
+    exists z, m. split; [exact Ez|]. rewrite Ez, forallb_app in T. apply andb_prop in T. destruct T as [_ T]. cbn [forallb] in T.
+    apply andb_prop in T. destruct T as [T _]. destruct (token_char_facts z T) as (_ & _ & Q & W & _). split; assumption.
+  - exists DQ, (DQ :: escape_q (c :: v)). repeat split.
+Qed.
+
+Lemma qitem_shape q kv : key_ok (fst kv) = true ->
+  exists c z m, qitem q kv = c :: m ++ [z] /\ uni_ws c = false /\ uni_ws z = false /\ (z =? EQ) = false /\ In EQ (qitem q kv).
+Proof.
+  intro Hk. destruct (key_first _ Hk) as (c & r & Ek & Hc & _). destruct (token_char_facts c Hc) as (_ & _ & _ & Wc & _).
+  destruct kv as [k v]. cbn [fst snd] in *. subst k. unfold qitem. cbn [fst snd].
+  destruct (quote_shape (q (c :: r)) v) as (z & m & E & Wz & Zq). rewrite E.
+  exists c, z, (r ++ [EQ] ++ m). split; [cbn [app]; f_equal; rewrite <- !app_assoc; reflexivity|]. repeat split; try assumption.
+  apply in_or_app. right. left. reflexivity.
+Qed.
+
+Lemma join_shape (l : list str) :
+  l <> [] -> (forall x, In x l -> exists c z m, x = c :: m ++ [z] /\ uni_ws c = false /\ uni_ws z = false /\ (z =? EQ) = false /\ In EQ x) ->
+  exists c z m, join COMMA_SP l = c :: m ++ [z] /\ uni_ws c = false /\ uni_ws z = false /\ (z =? EQ) = false /\ In EQ (join COMMA_SP l).
+Proof.
+  induction l as [|x l IH]; intros Hne H; [contradiction|].
+  destruct (H x (or_introl eq_refl)) as (c & z & m & Ex & Wc & Wz & Zq & Ie).
+  destruct l as [|y l].
+  - cbn [join]. exists c, z, m. repeat split; assumption.
+  - destruct (IH ltac:(discriminate) (fun a Ha => H a (or_intror Ha))) as (c2 & z2 & m2 & E2 & _ & Wz2 & Zq2 & _).
+    change (join COMMA_SP (x :: y :: l)) with (x ++ COMMA_SP ++ join COMMA_SP (y :: l)). rewrite E2, Ex.
+    exists c, z2, (m ++ [z] ++ COMMA_SP ++ c2 :: m2). split; [cbn [app]; f_equal; rewrite <- !app_assoc; reflexivity|].
+    repeat split; try assumption. rewrite <- Ex. apply in_or_app. left. exact Ie.
+Qed.
+
+Lemma wa_header_text ty d : ty_ok ty = true -> pdom d ->
+  wa_to_header {| wa_type := ty; wa_params := some_params d; wa_token := None |}
+  = title ty ++ SP :: join COMMA_SP (map (qitem (wa_q ty)) d).
+Proof.
+  intros _ [_ HF]. unfold wa_to_header, wa_q. cbn [wa_token wa_type wa_params]. destruct (list_eqb ty DIGEST) eqn:E.
+  - apply list_eqb_eq in E. subst ty. change (title DIGEST) with [68; 105; 103; 101; 115; 116]. cbn [app]. do 7 f_equal.
+    unfold some_params. rewrite map_map. reflexivity.
+  - change (title ty ++ [SP] ++ dump_dict (some_params d)) with (title ty ++ SP :: dump_dict (some_params d)). do 2 f_equal.
+    unfold dump_dict, some_params. rewrite map_map. f_equal. apply map_ext_in. intros [k v] Hin.
+    rewrite Forall_forall in HF. specialize (HF _ Hin). cbn [fst] in HF. unfold key_ok in HF. apply andb_prop in HF. destruct HF as [_ Hs].
+    apply negb_true_iff in Hs. unfold dump_dict_item, qitem. cbn [fst snd]. rewrite Hs. reflexivity.
+Qed.
+
+Theorem wa_params_roundtrip ty d :
+  ty_ok ty = true -> pdom d -> d <> [] ->
+  wa_from_header (Some (wa_to_header {| wa_type := ty; wa_params := some_params d; wa_token := None |}))
+  = Some (Some {| wa_type := ty; wa_params := some_params d; wa_token := None |}).
+Proof.
+  intros Hty Hd Hne. rewrite (wa_header_text ty d Hty Hd).
+  pose proof Hty as Hty2. unfold ty_ok in Hty2. apply andb_prop in Hty2. destruct Hty2 as [Hn Hc].
+  destruct (title_go_props false ty Hc) as [L P]. fold (title ty) in L, P.
+  set (text := join COMMA_SP (map (qitem (wa_q ty)) d)).
+  destruct (join_shape (map (qitem (wa_q ty)) d)) as (c & z & m & Et & Wc & Wz & Zq & Ie).
+  { destruct d; [contradiction|discriminate]. }
+  { intros x Hx. apply in_map_iff in Hx. destruct Hx as [kv [Ex Hkv]]. subst x. apply qitem_shape.
+    destruct Hd as [_ HF]. rewrite Forall_forall in HF. apply HF. exact Hkv. }
+  fold text in Et, Ie. unfold wa_from_header.
+  destruct (title ty ++ SP :: text) as [|x y] eqn:E0.
+  { destruct ty; [discriminate|]. unfold title in E0. cbn [title_go app] in E0. discriminate. }
+  rewrite <- E0. rewrite (partition1_app_stop SP (title ty) text P).
+  assert (Hs : strip uni_ws text = text) by (rewrite Et; apply (strip_keep _ c z m (or_introl eq_refl) Wc Wz)).
+  rewrite Hs.
+  assert (Hr : rstrip (fun c0 => c0 =? EQ) text = text).
+  { rewrite Et. change (c :: m ++ [z]) with ((c :: m) ++ [z]). apply rstrip_last. exact Zq. }
+  rewrite Hr.
+  assert (Hm : mem EQ text = true).
+  { unfold mem. apply existsb_exists. exists EQ. split; [exact Ie|apply N.eqb_refl]. }
+  rewrite Hm. unfold text. rewrite (qdict_roundtrip (wa_q ty) d Hd Hne), L. reflexivity.
+Qed.
